@@ -139,7 +139,13 @@ impl Check for C19 {
             rcfg.sync_main = true;
             rcfg.f_timeish = false;
             rcfg.f_async_helpers = false;
-            Some(ProgCase::generate(rng, rcfg, HoleVariant::Sync, "r"))
+            let mut rc = ProgCase::generate(rng, rcfg, HoleVariant::Sync, "r");
+            if rng.chance(0.3) {
+                // the module body dies of an uncaught error: every role must report the same error
+                crate::props::c11::plant_crash(&mut rc.tree, rng);
+                crate::props::c11::strip_top_catch(&mut rc.tree, "r");
+            }
+            Some(rc)
         } else {
             None
         };
@@ -308,6 +314,14 @@ impl Check for C19 {
                             &format!("role_{}_completes_although_entry_fails", name),
                             o.result.chars().take(200).collect::<String>(),
                             json!({"entry_result": a.result, "this_role_result": o.result}),
+                        ));
+                    }
+                    // ... with the same error report (first line of the display text) and the same output
+                    if a.result.starts_with("error:") && !a.result.starts_with("error:SyntaxError") && (o.error_text != a.error_text || o.console != a.console) && rep.failure.is_none() {
+                        rep.fail(Failure::new(
+                            &format!("role_{}_reports_another_error_than_entry", name),
+                            o.error_text.clone().unwrap_or_else(|| o.result.clone()).chars().take(200).collect::<String>(),
+                            json!({"entry_error": a.error_text, "this_role_error": o.error_text, "entry_result": a.result, "this_role_result": o.result, "entry_console": a.console, "this_role_console": o.console}),
                         ));
                     }
                 }
